@@ -63,8 +63,37 @@ fn cut_points(srv: &[ServerMsg]) -> Vec<usize> {
     v
 }
 
+/// Prepare-state calls (send_body_despite_method, header) and the first write must not panic for
+/// any request configuration; returns the configurations that do.
+fn prepare_panics() -> Vec<(String, String)> {
+    let mut v = Vec::new();
+    for (r, _) in requests() {
+        let res = guarded(|| {
+            if let Ok(f) = r.cfg.build_prepare() {
+                let mut f = f;
+                // the switch may be flipped more than once
+                if r.cfg.despite_method {
+                    f.send_body_despite_method();
+                }
+                let _ = (f.method().clone(), f.uri().clone(), f.version(), f.headers().len());
+                let mut sr = f.proceed();
+                let mut buf = vec![0u8; 4096];
+                let _ = sr.write(&mut buf);
+                let _ = sr.can_proceed();
+            }
+        });
+        if let Err(p) = res {
+            v.push((r.label.clone(), p));
+        }
+    }
+    v
+}
+
 pub fn build(tier: Tier) -> Vec<Arc<ExchCfg>> {
     let mut out = Vec::new();
+    if !prepare_panics().is_empty() {
+        return out; // reported by run(); the exchanges cannot even be set up
+    }
     for (r, valid) in requests() {
         if !valid {
             continue;
@@ -165,6 +194,15 @@ fn check_rejected(cfg: &ReqCfg) -> Option<(String, String)> {
 }
 
 pub fn run(tier: Tier) -> Report {
+    let pp = prepare_panics();
+    if !pp.is_empty() {
+        let mut rep = Report::new();
+        rep.evaluations = 1;
+        for (i, (label, p)) in pp.iter().enumerate() {
+            rep.violation(Violation { key: format!("C09:prepare:panic:{}", crate::engine::panic_site(p)), ord: i as u64, what: format!("Prepare-state calls / first write panicked: {} [{}]", p, label), replay: json!({"kind": "prepare"}) });
+        }
+        return rep;
+    }
     let cfgs = build(tier);
     crate::engine::WD_LIMIT_S.store(120, std::sync::atomic::Ordering::Relaxed);
     let lim = Limits { max_states: 1_000_000, keep_final_traces: 2, keep_state_traces: 2, check_coreach: true, probe_every: 8, ..Default::default() };
@@ -187,6 +225,9 @@ pub fn run(tier: Tier) -> Report {
 }
 
 pub fn replay(v: &Value) -> Result<Option<String>, String> {
+    if v["kind"].as_str() == Some("prepare") {
+        return Ok(prepare_panics().into_iter().next().map(|(l, p)| format!("[C09:prepare:panic] {} [{}]", p, l)));
+    }
     if v["kind"].as_str() == Some("rejected") {
         let cfg = ReqCfg::from_json(&v["request"])?;
         return Ok(check_rejected(&cfg).map(|(k, w)| format!("[{}] {}", k, w)));
